@@ -67,5 +67,5 @@ static void prop(Tape &t, Ctx &c) {
     if ((rc >= 0 && nok > 0) || pem) c.nontrivial(fmt("bundle:%d:%d:%d:%zu", rc >= 0, flags, ncerts, in.n / 32));
     if (rc >= 0 && nok > 0) c.sample(fmt("psX509ParseCertData flags=%d len=%zu pem=%d rc=%d certs=%d ok=%d", flags, in.n, (int) pem, rc, ncerts, nok));
 }
-VF_TARGET("C09.x509_pem_bundle", prop, 2048, 20)
+VF_TARGET("C09.x509_pem_bundle", prop, 2048, 12)
 namespace vf { void vf_global_init(int, char **) { psCryptoOpen(PSCRYPTO_CONFIG); } }
